@@ -1,64 +1,1 @@
-/-
-  C14 — line endings and the final newline are written as promised.
--/
-import PatchModel.Spec.Script
-import PatchModel.Model.Stream
-namespace PatchModel.C14
-open PatchModel
-
-/-- reading a file into lines and writing the lines back in `preserve` mode is the identity on all byte strings -/
-theorem read_write_id (bs : Bytes) : renderLines .keep (splitLines bs) = bs := by
-  sorry
-
-/-- lf (and native on Unix): contents unchanged, every terminator written is LF, a line without one gets none -/
-theorem render_lf (m : NewlineOutput) (hm : m = .lf ∨ m = .native) (ls : List Line) :
-    renderLines m ls = ls.flatMap fun l => l.content ++ (if l.newline = .none then [] else [NL]) := by
-  sorry
-
-theorem render_crlf (ls : List Line) :
-    renderLines .crlf ls = ls.flatMap fun l => l.content ++ (if l.newline = .none then [] else [CR, NL]) := by
-  sorry
-
-/-- preserve: every line keeps exactly the terminator it carries -/
-theorem render_keep (ls : List Line) :
-    renderLines .keep ls = ls.flatMap fun l => l.content ++
-      (match l.newline with | .none => [] | .lf => [NL] | .crlf => [CR, NL]) := by
-  sorry
-
-/-- in all modes the output ends without a newline exactly when its last line has none -/
-theorem final_newline (m : NewlineOutput) (ls : List Line) (last : Line) (h : ls.getLast? = some last) :
-    (last.newline ≠ .none → (renderLines m ls).getLast? = some NL) ∧
-    (last.newline = .none → last.content ≠ [] → last.content.getLast? ≠ some NL →
-      (renderLines m ls).getLast? ≠ some NL) := by
-  sorry
-
-/-- invariants of every line ever read from a file -/
-theorem splitLines_noNL (bs : Bytes) : ∀ l ∈ splitLines bs, NL ∉ l.content := by
-  sorry
-
-theorem splitLines_none_nonempty (bs : Bytes) : ∀ l ∈ splitLines bs, l.newline = .none → l.content ≠ [] := by
-  sorry
-
-theorem splitLines_lf_noCR (bs : Bytes) : ∀ l ∈ splitLines bs, l.newline = .lf → l.content.getLast? ≠ some CR := by
-  sorry
-
-/-- only the last line of a file can lack a terminator -/
-theorem splitLines_none_last (bs : Bytes) (pre post : List Line) (l : Line)
-    (h : splitLines bs = pre ++ l :: post) (hn : l.newline = .none) : post = [] := by
-  sorry
-
-/-- what a placed hunk writes: original lines come from the file (with the file's terminator), added lines from the
-    patch (with the patch's terminator); nothing else -/
-theorem hunkOutput_sources (file : List Line) (ls : List PatchLine) (p : Nat) :
-    ∀ o ∈ hunkOutput file ls p,
-      (∃ i l, o = Out.fromFile i l ∧ file[i]? = some l) ∨
-      (∃ pl ∈ ls, pl.op = PLUS ∧ o = Out.fromPatch pl.line) := by
-  sorry
-
-theorem spliceAt_sources (file : List Line) (c : Nat) (pls : List (Hunk × Nat)) :
-    ∀ o ∈ spliceAt file c pls,
-      (∃ i l, o = Out.fromFile i l ∧ file[i]? = some l) ∨
-      (∃ hp ∈ pls, ∃ pl ∈ hp.1.lines, pl.op = PLUS ∧ o = Out.fromPatch pl.line) := by
-  sorry
-
-end PatchModel.C14
+import PatchModel.Props.C14
